@@ -119,6 +119,41 @@ def judge(res, outs, specname):
     return None
 
 
+def progress_probe(cmd, cwd, env, seconds=24):
+    """Run cmd for a while and say what it is doing: 'blocked' (hardly any CPU time),
+    'growing' (CPU-bound, resident memory rising), or 'spinning' (CPU-bound, memory flat)."""
+    import subprocess, time, signal
+    p = subprocess.Popen(cmd, cwd=cwd, env=env, stdout=subprocess.DEVNULL, stderr=subprocess.DEVNULL,
+                         start_new_session=True)
+    rss, cpu = [], []
+    try:
+        for _ in range(seconds // 2):
+            time.sleep(2)
+            if p.poll() is not None:
+                return "finished"
+            try:
+                st = open("/proc/%d/stat" % p.pid).read().rsplit(")", 1)[1].split()
+                cpu.append(int(st[11]) + int(st[12]))           # utime + stime (clock ticks)
+                for line in open("/proc/%d/status" % p.pid):
+                    if line.startswith("VmRSS:"):
+                        rss.append(int(line.split()[1]))
+            except (OSError, IndexError, ValueError):
+                break
+    finally:
+        try:
+            os.killpg(p.pid, signal.SIGKILL)
+        except OSError:
+            pass
+        p.wait()
+    if len(cpu) < 4:
+        return "finished"
+    if cpu[-1] - cpu[0] < 100 * (len(cpu) - 1):        # under half of the wall time on the CPU
+        return "blocked: no CPU time used while waiting"
+    if rss and rss[-1] > rss[len(rss) // 2] * 1.01 and rss[-1] > rss[0] * 1.02:
+        return "growing"
+    return "spinning: CPU-bound with constant memory"
+
+
 def fuzz_worker(args):
     chk, i, corpus, nper = args
     rng = chk.rng("fuzz", i)
@@ -185,6 +220,18 @@ def fuzz_worker(args):
                         or b"align" in data
                     if aligned and len(re.findall(rb"\{\d+,?\d*\}", data)) >= 8:
                         v = ("hang-align-repeat", v[1])
+                    else:
+                        # Is it stuck, or still building an automaton whose size is exponential
+                        # in the pattern (no limit on DFA states is documented, and a time bound
+                        # is no part of the property)?  Watch the process for a while.
+                        state = progress_probe(cmd, d, env)
+                        if state == "growing":
+                            out["inconc"].append("input of %d bytes: after 90 CPU-seconds flex is still "
+                                                 "computing and its memory still grows (automaton "
+                                                 "construction): not judged" % len(data))
+                            v = None
+                        else:
+                            v = ("hang", v[1] + "; " + state)
                 else:
                     v = judge(res2, [] if own else outs, spec)
                     out["inconc"].append("slow input (%d bytes) finished on the second, longer run" % len(data))
